@@ -42,9 +42,12 @@ func c14kConfigs(tier string) []vmc.Cfg {
 		b = 3
 	}
 	for _, impl := range []string{"shared", "factory", "plain"} {
-		for _, ev := range []string{"close", "cancel+close"} {
+		for _, ev := range []string{"close", "cancel+close", "cancel-put+close"} {
 			for _, wp := range []bool{false, true} {
-				if impl == "plain" && (ev != "close" || !wp) {
+				if impl == "plain" && (ev == "cancel+close" || !wp) {
+					continue
+				}
+				if ev == "cancel-put+close" && !wp {
 					continue
 				}
 				out = append(out, vmc.Cfg{Name: fmt.Sprintf("keystore-close/%s/%s/put=%v", impl, ev, wp), Budget: b, Data: c14kcfg{impl, ev, wp}})
@@ -152,12 +155,14 @@ func c14kRun(x *vmc.X, cfg vmc.Cfg) {
 			}
 		})
 	}
+	pctx, pcancel := context.WithCancel(ctx)
+	defer pcancel()
 	if c.withPut {
 		s.Go("putter", func() {
 			mu.Lock()
 			putterInCall = true
 			mu.Unlock()
-			_, putErr = ks.Put(ctx, keys.mhs[3])
+			_, putErr = ks.Put(pctx, keys.mhs[3])
 			mu.Lock()
 			putterInCall = false
 			mu.Unlock()
@@ -245,6 +250,13 @@ func c14kRun(x *vmc.X, cfg vmc.Cfg) {
 					stopFeeding = true
 					mu.Unlock()
 					rcancel()
+				}})
+			}
+			if c.event == "cancel-put+close" && !cancelled && class == "P" {
+				acts = append(acts, vmc.Action{Label: "cancel-put", Do: func() {
+					cancelled = true
+					hist = append(hist, "cancel-put@"+class+fmt.Sprint(dsParked))
+					pcancel()
 				}})
 			}
 			if c.event == "close" || cancelled {
